@@ -342,8 +342,20 @@ class ToolRun:
     def run_chunk(self, dirs):
         pats = ['./' + d + ('/...' if self.cmd == 'show' else '') for d in dirs]
         before = {d: self.gen_state(d) for d in dirs}
-        rc, so, se, dt = run([self.wire, self.cmd] + self.args + pats, cwd=self.b.root, limit_mem=True,
+        env = None
+        stats = None
+        if self.chunk == 1:
+            stats = os.path.join(self.b.root, dirs[0], '.verif_stats.json')
+            env = dict(GOENV, WIRE_VERIF_STATS=stats)
+        rc, so, se, dt = run([self.wire, self.cmd] + self.args + pats, cwd=self.b.root, limit_mem=True, env=env,
                              timeout=self.timeout if len(dirs) > 1 else self.single_timeout)
+        self.work = getattr(self, 'work', {})
+        if stats and os.path.exists(stats):
+            try:
+                self.work[dirs[0]] = json.load(open(stats))
+            except ValueError:
+                pass
+            os.remove(stats)
         self.invocations += 1
         crashed = rc == -9 or rc == 2 and PANIC_RE.search(se) or (rc not in (0, 1) and self.cmd != 'diff')
         if crashed and len(dirs) > 1:
@@ -418,6 +430,9 @@ class ToolRun:
                 o['stderr_tail'] = se[-1500:]
             if self.cmd == 'show':
                 o.update(parse_show(c, so))
+            w = getattr(self, 'work', {}).get(d)
+            o['work_acyclic'] = (w or {}).get('acyclic', -1)     # -1: no counter (hooks absent or crash)
+            o['work_solve'] = (w or {}).get('solve', -1)
             self.obs[d] = o
 
 
